@@ -145,6 +145,24 @@ def run_case(case):
                 if kind == 'put':
                     c = nfc.snep.SnepClient(llc)
                     obs['client'] = ('ret', c.put_octets(msg))
+                elif kind == 'get' and case.get('other_miu'):
+                    # a second connection to the same server (another
+                    # receive MIU, kept open and idle) while the Get runs
+                    c = nfc.snep.SnepClient(
+                        llc, max_ndef_msg_recv_size=limit)
+                    other = nfc.llcp.Socket(llc,
+                                            nfc.llcp.DATA_LINK_CONNECTION)
+                    other.setsockopt(nfc.llcp.SO_RCVMIU, case['other_miu'])
+                    if case['order'] == 'other-first':
+                        other.connect('urn:nfc:sn:snep')
+                        c.connect('urn:nfc:sn:snep')
+                    else:
+                        c.connect('urn:nfc:sn:snep')
+                        other.connect('urn:nfc:sn:snep')
+                    r = c.get_octets(make_octets(12, 2))
+                    c.close()
+                    other.close()
+                    obs['client'] = ('ret', r)
                 elif kind == 'get':
                     c = nfc.snep.SnepClient(
                         llc, max_ndef_msg_recv_size=limit)
@@ -349,6 +367,15 @@ def cases(tier):
                                18 * min(m_up, 248) + 11):
                         out.append(dict(base, kind=kind, size=sz, slow=slow,
                                         agf=sz % 2 == 0))
+            # two connections to the SNEP server at the same time, with
+            # different receive MIUs; the Get runs on the one with MIU 128
+            for om in (248, 1024):
+                if om <= cli_link:
+                    for order in ('other-first', 'other-later'):
+                        for sz in (100, 2 * 128 + 9, 700):
+                            out.append(dict(base, kind='get', size=sz,
+                                            other_miu=om, order=order,
+                                            agf=order == 'other-later'))
             # acceptable length around the message size
             for kind in ('put', 'get'):
                 m = m_up if kind == 'put' else 128
@@ -396,7 +423,9 @@ def main(tier='quick', seed=0, part=None):
         "negotiated connection MIU (k=1..3) x aggregation on/off, plus "
         "acceptable-length limits s-1, s, s+1, plus a slow consumer (30 ms "
         "before every recv) on the server or client side for multi-fragment "
-        "messages; one whole-stack run per point; "
+        "messages, plus Get with a second idle connection (receive MIU 248 / "
+        "1024, made before / after) to the same server; one whole-stack run "
+        "per point; "
         "distinct = distinct grid point (all non-trivial: a message crosses "
         "the link)")
     run.assumptions += [
